@@ -6,11 +6,19 @@ use crate::sym::Cond;
 use crate::unit;
 use sliding_features::{pure_functions::Echo, sliding_windows::*, View};
 
+thread_local! { /// > 0: the stream cycles through that many symbolic values
+    static PERIOD: std::cell::Cell<usize> = const { std::cell::Cell::new(0) }; }
+fn xin<T: Dom>(t: usize) -> T { let p = PERIOD.with(|p| p.get()); if p > 0 { T::input(&format!("c{}", t % p)) } else { T::input(&format!("x{t}")) } }
+fn with_period(period: usize, f: impl FnOnce()) { PERIOD.with(|p| p.set(period)); let r = std::panic::catch_unwind(std::panic::AssertUnwindSafe(f)); PERIOD.with(|p| p.set(0)); if let Err(e) = r { std::panic::resume_unwind(e); } }
+fn net_def_p<T: Dom>(n: usize, k: usize, period: usize) { with_period(period, || net_def::<T>(n, k)) }
+fn net_neg_p<T: Dom>(n: usize, k: usize, period: usize) { with_period(period, || net_neg::<T>(n, k)) }
+fn cog_def_p<T: Dom>(n: usize, k: usize, period: usize) { with_period(period, || cog_def::<T>(n, k)) }
+fn cti_neg_p<T: Dom>(n: usize, k: usize, period: usize) { with_period(period, || cti_neg::<T>(n, k)) }
 fn cti_def<T: Dom>(n: usize, k: usize) {
     let mut v = CorrelationTrendIndicator::new(Echo::new(), n);
     let mut h: Vec<T> = vec![];
     for t in 0..k {
-        let x = T::input(&format!("x{t}"));
+        let x = xin::<T>(t);
         h.push(x);
         v.update(x);
         if h.len() < n { continue; }
@@ -47,7 +55,7 @@ fn cti_def<T: Dom>(n: usize, k: usize) {
 fn cti_neg<T: Dom>(n: usize, k: usize) {
     let (mut v, mut u) = (CorrelationTrendIndicator::new(Echo::new(), n), CorrelationTrendIndicator::new(Echo::new(), n));
     for t in 0..k {
-        let x = T::input(&format!("x{t}"));
+        let x = xin::<T>(t);
         v.update(x); u.update(-x);
         if t + 1 < n { continue; }
         if let (Some(a), Some(b)) = (v.last(), u.last()) { T::oblige_alt(&format!("CTI(N={n}) t={t}: CTI(-x) == -CTI(x)"), rel_alts(b, a, -T::one(), eq(b, -a), true)); }
@@ -58,7 +66,7 @@ fn net_def<T: Dom>(n: usize, k: usize) {
     let mut v = NoiseEliminationTechnology::new(Echo::new(), n);
     let mut h: Vec<T> = vec![];
     for t in 0..k {
-        let x = T::input(&format!("x{t}"));
+        let x = xin::<T>(t);
         h.push(x);
         v.update(x);
         let w = window(&h, n);
@@ -79,7 +87,7 @@ fn net_def<T: Dom>(n: usize, k: usize) {
 fn net_neg<T: Dom>(n: usize, k: usize) {
     let (mut v, mut u) = (NoiseEliminationTechnology::new(Echo::new(), n), NoiseEliminationTechnology::new(Echo::new(), n));
     for t in 0..k {
-        let x = T::input(&format!("x{t}"));
+        let x = xin::<T>(t);
         v.update(x); u.update(-x);
         if t + 1 < n { continue; }
         if let (Some(a), Some(b)) = (v.last(), u.last()) { T::oblige(&format!("NET(N={n}) t={t}: NET(-x) == -NET(x)"), eq(b, -a)); }
@@ -105,7 +113,7 @@ fn cog_def<T: Dom>(n: usize, k: usize) {
     let mut v = CenterOfGravity::new(Echo::new(), n);
     let mut h: Vec<T> = vec![];
     for t in 0..k {
-        let x = T::input(&format!("x{t}"));
+        let x = xin::<T>(t);
         h.push(x);
         v.update(x);
         let w = window(&h, n);
@@ -124,7 +132,7 @@ fn monotone_pm1<T: Dom>(n: usize, k: usize) {
     let mut v = NoiseEliminationTechnology::new(Echo::new(), n);
     let mut h: Vec<T> = vec![];
     for t in 0..k {
-        let x = T::input(&format!("x{t}"));
+        let x = xin::<T>(t);
         h.push(x);
         v.update(x);
         if h.len() < n { continue; }
@@ -160,12 +168,25 @@ pub fn units(tier: Tier, seed: u64) -> Vec<Unit> {
         u.push(unit!(format!("C06/NET-negation/N={n}/k={k}/sample-path"), net_neg(n, k)));
     }
     for (i, x) in u.iter_mut().enumerate().skip(first) { x.concolic = Some(seed * 31 + 1 + (i as u64 % 2)); x.budget_s = 60.0; x.max_decisions = 60000; }
+    // streams cycling through two or three symbolic values, all comparison outcomes, at larger windows: many exact ties, the largest
+    // and smallest value duplicated, constant windows when the values coincide
+    let first = u.len();
+    for &n in &(if tier == Tier::Quick { vec![16usize, 17, 33, 40] } else { vec![9usize, 16, 17, 32, 33, 34, 40, 49, 64, 65] }) {
+        for period in [2usize, 3] {
+            let k = n + 2 * period;
+            u.push(unit!(format!("C06/NET-definition/N={n}/k={k}/period-{period}"), net_def_p(n, k, period)));
+            u.push(unit!(format!("C06/NET-negation/N={n}/k={k}/period-{period}"), net_neg_p(n, k, period)));
+            u.push(unit!(format!("C06/CoG-definition/N={n}/k={k}/period-{period}"), cog_def_p(n, k, period)));
+            u.push(unit!(format!("C06/CTI-negation/N={n}/k={k}/period-{period}"), cti_neg_p(n, k, period)));
+        }
+    }
+    for x in u.iter_mut().skip(first) { x.budget_s = 30.0; x.path_cap = 200; x.max_decisions = 60000; }
     u
 }
 pub fn meta() -> Meta {
     Meta {
         functions: vec!["CorrelationTrendIndicator::{new,update,last}", "NoiseEliminationTechnology::{new,update,last}", "CenterOfGravity::{new,update,last}", "Echo::{update,last}"],
-        bounds: "N in {3,4} (quick) / {3..6} (thorough; NET to 5, NET order-isomorphism to 4); k = N+2 (window full and shifted twice, so the oldest segment is exercised); inputs unconstrained reals; all comparison outcomes (for NET every pairwise order, ties included); in addition (N,k) in {(8,12),(12,16),(3,40)} (quick) / up to (16,20),(4,60) (thorough) along the comparison path of a pseudo-random sample input",
+        bounds: "N in {3,4} (quick) / {3..6} (thorough; NET to 5, NET order-isomorphism to 4); k = N+2 (window full and shifted twice, so the oldest segment is exercised); inputs unconstrained reals; all comparison outcomes (for NET every pairwise order, ties included); in addition (N,k) in {(8,12),(12,16),(3,40)} (quick) / up to (16,20),(4,60) (thorough) along the comparison path of a pseudo-random sample input; NET (definition, negation), CoG (definition) and CTI (negation) also on streams cycling through two or three symbolic values, all comparison outcomes, at N in {16,17,33,40} (quick) / {9,16,17,32,33,34,40,49,64,65}",
         outside: vec!["N > 6", "f64 rounding", "CTI '+1 on any strictly increasing window' is decided for linearly increasing windows: Pearson correlation of a strictly increasing but non-linear window with time is < 1 by definition, so the corollary as literally worded only holds for NET; see DESIGN.md"],
         assumptions: vec![],
     }
